@@ -1,6 +1,191 @@
-import PymocaVerif.Lemmas.GenEq
-/-! # C11 — property theorems (in progress) -/
+import PymocaVerif.Lemmas.GenFunc
+import PymocaVerif.Model.RatPrims
+/-!
+# C11 — the DAE residual equals the Modelica meaning of the flat equations
+
+Property theorems only; helper lemmas are in `Lemmas/Gen*.lean`.  Models: `Model/ExprSem.lean` (the
+Modelica meaning `evalM`, `residualM`, `funcSem` over an arbitrary carrier `K` with arbitrary
+primitives `Prims K`) and `Model/Gen.lean` (what `generator.py` builds, `gen`/`genMEq`/`genFunc`, and what
+CasADi computes for it, `evalC`).  `Refines x y` = wherever the meaning `y` is defined, the generated
+term `x` is defined and has the same value.  Every statement quantifies over all expressions /
+equations / functions of the model's types (no bound on size or depth), all environments and all
+interpretations of the primitives.
+-/
 namespace PymocaVerif.Gen
-open PymocaVerif.ExprSem
-theorem forloop_range (a s b : Int) : arangeCode a s b = modelicaRange a s b := arangeCode_eq a s b
+open PymocaVerif.ExprSem PymocaVerif.RatPrims
+
+/-- **Translation of expressions is correct** (`exitExpression`, `exitIfExpression`, calls): the term
+    generated for a flat expression evaluates, at every point, to the Modelica meaning of the
+    expression — for every operator mapping through `OP_MAP`, the unary special cases, `not`,
+    `* ↦ mtimes`, the element-wise forms, if-expressions of any length and calls of user functions
+    whose translations are correct (`TabOK`).  Structural induction over the expression. -/
+theorem gen_correct (P : Prims K) (o : Opts) (T : FTab K) (F : FSem K) (hT : TabOK P T F)
+    (hS : NoShadow T) (e : MExpr K) (c : CTerm K) (h : gen P o T e = .ok c) (ρ : Env K) :
+    Refines (evalC P ρ c) (evalM P F ρ e) :=
+  gen_refines P o T F hT hS e c h ρ
+
+example : ∃ c, gen ratPrims {} (fun _ => none)
+      (.bin .div (.bin .pow (.ref "x" []) (.num 2)) (.un .neg (.num (4 : Rat)))) = .ok c ∧
+    evalC ratPrims ⟨fun _ => some [3], fun _ => none, fun _ => none⟩ c = some [(-9 : Rat) / 4] := by
+  refine ⟨_, rfl, ?_⟩
+  decide +kernel
+
+/-- **Every operator of the supported subset is translatable** (division and power included): an
+    expression built from the Modelica operators other than `<>`, the elementary functions `MX`
+    knows by their Modelica name, and calls of translatable functions, is accepted by `gen`. -/
+theorem gen_total_binary (o : Opts) (T : FTab K) (op : BinOp) (hne : op ≠ .ne) (ta tb : CTerm K) :
+    ∃ c, genBin o T op ta tb = .ok c := by
+  cases op <;> simp_all [genBin, opMap, hasMeth]
+
+example : ∃ c, genBin {} (fun _ => none : FTab Rat) .div (.const 1) (.const 2) = .ok c :=
+  gen_total_binary {} _ .div (by decide) _ _
+
+/-- **The backwards `if_else` loop is "first true branch"**: folding `if_else(cond, value, src)` from
+    the last branch to the first (what `exitIfExpression`, `exitIfEquation` and `exitIfStatement` do)
+    yields the chain that tests the conditions in source order and takes the first true one. -/
+theorem if_fold_first_true (cs es : List (CTerm K)) (hlen : cs.length + 1 = es.length) :
+    foldFromLast cs es = nestAll cs es :=
+  foldFromLast_eq_nestAll cs es hlen
+
+/-- … and that chain evaluates like the if-expression: conditions in order, only the taken branch. -/
+theorem if_chain_semantics (P : Prims K) (ρ : Env K) (c e : CTerm K) (cs es : List (CTerm K)) :
+    evalC P ρ (nestAll (c :: cs) (e :: es)) =
+      (do let vc ← evalC P ρ c
+          let b ← condOf P vc
+          if b then evalC P ρ e else evalC P ρ (nestAll cs es)) := by
+  simp [nestAll, evalC]
+
+example : foldFromLast [CTerm.const (1 : Rat), .const 0] [.const 10, .const 20, .const 30] =
+    .ifElse (.const 1) (.const 10) (.ifElse (.const 0) (.const 20) (.const 30)) := by
+  rw [if_fold_first_true _ _ (by decide)]; rfl
+
+/-- **The residual of an equation is `lhs - rhs`** (`exitEquation`), with the outputs of a called
+    function truncated to what the left-hand side takes. -/
+theorem residual_is_lhs_minus_rhs (P : Prims K) (o : Opts) (T : FTab K) (F : FSem K)
+    (hT : TabOK P T F) (hS : NoShadow T) (e : SEq K) (c : CTerm K) (h : genSEq P o T e = .ok c)
+    (ρ : Env K) : Refines (evalC P ρ c) (residualSEq P F ρ e) :=
+  genSEq_refines P o T F hT hS e c h ρ
+
+example : ∃ c, genSEq ratPrims {} (fun _ => none) ⟨[.ref "x" []], .num 5⟩ = .ok c ∧
+    evalC ratPrims ⟨fun _ => some [3], fun _ => none, fun _ => none⟩ c = some [(-2 : Rat)] := by
+  refine ⟨_, rfl, ?_⟩
+  decide +kernel
+
+/-- **The loop values are the Modelica range**: `np.arange(start, stop ± 1, step)` is
+    `start : step : stop`, for positive and negative steps, whether or not the step divides the span. -/
+theorem forloop_range (a s b : Int) : arangeCode a s b = modelicaRange a s b :=
+  arangeCode_eq a s b
+
+example : arangeCode 1 2 4 = [1, 3] ∧ arangeCode 5 (-2) 0 = [5, 3, 1] ∧ arangeCode 3 1 2 = [] := by
+  decide
+
+/-- For contrast: the iteration used before the upstream fix 4aad8e2, `arange(start, stop + step, step)`,
+    is the Modelica range only when the step divides the span (and overshoots otherwise). -/
+theorem forloop_range_old_needs_divisibility (a s b : Int) (hs : 0 < s) (hab : a ≤ b) (hdiv : s ∣ (b - a)) :
+    arangeOld a s b = modelicaRange a s b :=
+  arangeOld_pos_dvd a s b hs hab hdiv
+
+example : arangeOld 1 2 4 = [1, 3, 5] ∧ modelicaRange 1 2 4 = [1, 3] := by decide
+
+/-- **Every flat equation** — plain, if-equation (block of the first true condition), for-equation
+    (body instantiated for every value of the Modelica range, laid out body-major) — has the residual
+    the Modelica meaning prescribes. -/
+theorem equation_correct (P : Prims K) (o : Opts) (T : FTab K) (F : FSem K) (hT : TabOK P T F)
+    (hS : NoShadow T) (ienv : String → Option Int) (q : MEq K) (c : CTerm K)
+    (h : genMEq P o T ienv q = .ok c) (ρ : Env K) (hidx : ρ.idx = ienv) :
+    Refines (evalC P ρ c) (residualM P F ρ q) :=
+  genMEq_refines P o T F hT hS ienv q c h ρ hidx
+
+example : ∃ c, genMEq ratPrims {} (fun _ => none) (fun _ => none)
+      (.foreq "i" 1 (.lit 3) 2 [⟨[.ref "v" [.at (.var "i")]], .bin .mul (.idx "i") (.ref "x" [])⟩]) = .ok c ∧
+    evalC ratPrims ⟨fun n => if n = "v" then some [10, 20, 30] else some [2],
+      fun n => if n = "v" then some [3] else none, fun _ => none⟩ c = some [(8 : Rat), 24] := by
+  refine ⟨_, rfl, ?_⟩
+  decide +kernel
+
+/-- **Sequential substitution is imperative execution** (`get_function`): a function whose body consists
+    of assignments and if-statements that assign one variable per branch translates to a `Function`
+    computing exactly what running the algorithm section computes.
+    *Partial*: for-statements and if-statements assigning several variables are inside the model
+    (`genStmt`, compared with the real code on every run) but outside this theorem; for if-statements
+    whose conditions read a variable assigned in the same if-statement the real translation is wrong
+    (known finding C11-F3). -/
+theorem function_subst_partial (P : Prims K) (o : Opts) (T : FTab K) (F : FSem K) (hT : TabOK P T F)
+    (hS : NoShadow T) (f : MFunc K) (hf : SafeFunc f) (fn : CFunc K) (h : genFunc P o T f = .ok fn)
+    (vs : List (List K)) : Refines (evalCF P fn vs) (funcSem P F f vs) :=
+  genFunc_refines P o T F hT hS f hf fn h vs
+
+/-- The substitution lemma behind it: `ca.substitute` on a term = evaluating the term with the
+    substituted symbols bound to the values of their replacements. -/
+theorem substitute_is_rebinding (P : Prims K) (σ : SymVals K) (ρ : Env K)
+    (hsh : ∀ x s, SymVals.get σ x = some s → ρ.shape x = none) (t : CTerm K) (ht : noMap t = true) :
+    evalC P ρ (subst σ t) = evalC P (over P ρ σ) t :=
+  evalC_subst P σ ρ hsh t ht
+
+def exampleFunc : MFunc Rat :=
+  { name := "f", inputs := ["a"], outputs := ["r"], locals := ["t"],
+    body := [.assign "t" (.bin .add (.bin .mul (.num 2) (.ref "a" [])) (.num 1)),
+             .ifs [.bin .gt (.ref "a" []) (.num 0)] (singleBlocks "r" [.ref "t" [], .un .neg (.ref "t" [])]),
+             .assign "r" (.bin .sub (.ref "r" []) (.ref "a" []))] }
+
+example : SafeFunc exampleFunc ∧
+    (∃ fn, genFunc ratPrims {} (fun _ => none) exampleFunc = .ok fn ∧ evalCF ratPrims fn [[3]] = some [4]) ∧
+    funcSem ratPrims (fun _ => none) exampleFunc [[3]] = some [4] := by
+  refine ⟨⟨?_, by decide⟩, ⟨_, rfl, by decide +kernel⟩, by decide +kernel⟩
+  intro s hs
+  simp only [exampleFunc, List.mem_cons, List.mem_nil_iff, or_false] at hs
+  rcases hs with rfl | rfl | rfl
+  · exact .assign _ _
+  · exact .ifs _ _ _ (by decide)
+  · exact .assign _ _
+
+/-- Function tables: functions are declared before use; if every function is in the fragment of
+    `function_subst_partial`, the translated table refines the table of meanings. -/
+theorem function_table_correct (P : Prims K) (o : Opts) : ∀ (fs : List (MFunc K)),
+    (∀ f ∈ fs, SafeFunc f) → NoShadow (genTable P o fs) → TabOK P (genTable P o fs) (funcTable P fs)
+  | [], _, _ => ⟨fun _ => rfl, fun f fn h => by simp [genTable] at h⟩
+  | f :: rest, hsafe, hS => by
+    have hS' : NoShadow (genTable P o rest) := by
+      refine ⟨fun e => ?_, fun op => ?_⟩
+      · have := hS.1 e; simp only [genTable] at this; split at this <;> simp_all
+      · have := hS.2 op; simp only [genTable] at this; split at this <;> simp_all
+    have ih := function_table_correct P o rest (fun g hg => hsafe g (by simp [hg])) hS'
+    refine ⟨fun n => ?_, fun n fn h => ?_⟩
+    · simp only [genTable, funcTable]
+      split
+      · simp
+      · exact ih.dom n
+    · simp only [genTable] at h
+      simp only [funcTable]
+      split at h
+      · rename_i hn
+        simp only [Option.some.injEq] at h
+        refine ⟨funcSem P (funcTable P rest) f, by simp [hn], fun vs => ?_⟩
+        exact genFunc_refines P o (genTable P o rest) (funcTable P rest) ih hS' f (hsafe f (by simp)) fn h vs
+      · rename_i hn
+        simp only [hn, if_false]
+        exact ih.sem n fn h
+
+/-- **The residual functions**: if the generator accepts the model, then at every point where the
+    Modelica meaning of all (initial) equations is defined, the generated DAE / initial residual function
+    returns exactly `lhs - rhs` of each flat equation.
+    *Partial* only through `function_subst_partial`: the model's functions must lie in that fragment
+    (models without functions, or with such functions, are covered completely). -/
+theorem residual_function_correct_partial (P : Prims K) (o : Opts) (ienv : String → Option Int)
+    (m : MModel K) (initial : Bool) (fn : CFunction K) (h : genResidual P o ienv m initial = .ok fn)
+    (hsafe : ∀ f ∈ m.funcs, SafeFunc f) (hS : NoShadow (genTable P o m.funcs))
+    (ρ : Env K) (hidx : ρ.idx = ienv) :
+    Refines (evalFn P ρ fn) (residualsOfModel P ρ m initial) := by
+  unfold genResidual at h
+  obtain ⟨ts, hts, hc⟩ := bind_ok.mp h
+  cases hc
+  exact genMEqs_refines P o _ _ (function_table_correct P o m.funcs hsafe hS) hS ienv _ ts hts ρ hidx
+
+example : ∃ fn, genResidual ratPrims {} (fun _ => none)
+      ⟨[exampleFunc], [.simple ⟨[.ref "y" []], .call "f" (.cons (.ref "x" []) .nil)⟩], []⟩ false = .ok fn ∧
+    evalFn ratPrims ⟨fun n => if n = "x" then some [3] else some [1], fun _ => none, fun _ => none⟩ fn
+      = some [[(-3 : Rat)]] := by
+  refine ⟨_, rfl, ?_⟩
+  decide +kernel
+
 end PymocaVerif.Gen
